@@ -15,6 +15,11 @@
                               after a fault in that exchange the recovery block of the command is due, not the S(WTX) again)
        Fault(kind, ex)        nfc.clf.TimeoutError / TransmissionError / ProtocolError raised by clf.exchange
                               (ex: the tag had executed the command before the answer was lost)
+       Sense(res)             clf.sense(target) called by the tag code to re-select the tag (tt2.py:488 after a NAK,
+                              tt2_nxp.py protect(password) re-activation): res = FALSE when the tag has left the field.
+                              The tag object's `target` must follow the last sense result (tp, logged with every
+                              Send and Ret, is "tag.target is not None"): a cleared target makes later operations on
+                              the same object end with TIMEOUT_ERROR / False / None instead of a TypeError
        Ret(kind, errno, val)  how the public operation ended
    The client obligations are recorded as violations in `viol` instead of being guards, so that the same
    functions serve exhaustive checking of the discipline (MC_TagCmd: a client that follows the code's loops,
@@ -40,15 +45,21 @@ Scripts(N, bursts) == {[p |-> p, k |-> k, b |-> b, m |-> m] : p \in 1..N, k \in 
 
 \* parameters of one run: [proto, nRetry, clean (Seq of hashes), cleanRet ([kind, errno, val]), doc (set of values)]
 StInit == [pos |-> 0, att |-> 0, cur |-> 0, cc |-> "-", ph |-> "idle", gave |-> 0, lastGive |-> "-", justGave |-> FALSE,
-           ex |-> 0, fAfter |-> 0, dirty |-> FALSE, amb |-> FALSE, viol |-> {}, ret |-> [kind |-> "-", errno |-> 0, val |-> "-"]]
+           ex |-> 0, fAfter |-> 0, dirty |-> FALSE, amb |-> FALSE, tgt |-> TRUE, viol |-> {}, ret |-> [kind |-> "-", errno |-> 0, val |-> "-"]]
 
 V(s, name) == [s EXCEPT !.viol = @ \cup {name}]
 VIf(s, cond, name) == IF cond THEN V(s, name) ELSE s
 
-DoSend(s, P, h, cc) ==
+\* the tag left the field: for the operation this is a persistent time-out (it gives up)
+DoSense(s, P, res) ==
+    IF res THEN [s EXCEPT !.tgt = TRUE]
+    ELSE [s EXCEPT !.tgt = FALSE, !.gave = s.gave + 1, !.lastGive = "gone", !.dirty = TRUE]
+
+DoSend(s0, P, h, cc, tp) ==
+    LET s == VIf(s0, tp # s0.tgt, "stale-target") IN
     IF s.ph = "idle" THEN                                    \* a new command
         LET n == s.pos + 1
-            s1 == VIf(s, ~s.dirty /\ ~s.amb /\ (n > Len(P.clean) \/ (n <= Len(P.clean) /\ h # P.clean[n])),
+            s1 == VIf(s, ~s.dirty /\ ~s.amb /\ ~P.gone /\ (n > Len(P.clean) \/ (n <= Len(P.clean) /\ h # P.clean[n])),
                       IF h = s.cur THEN "resend-after-answer" ELSE "off-sequence")
         IN [s1 EXCEPT !.pos = n, !.att = 1, !.cur = h, !.cc = cc, !.ph = "sent", !.ex = 0, !.fAfter = 0, !.justGave = FALSE]
     ELSE IF s.ph = "faulted" THEN                            \* must be the retry of the same command
@@ -73,23 +84,33 @@ CanRetry(s, P, kind) ==
     /\ ~(P.proto = "T4" /\ kind = "protocol")                \* tt4.py:117-119
 DoFault(s, P, kind, ex) ==
     IF s.ph # "sent" THEN V(s, "fault-without-send")
-    ELSE LET s1 == [s EXCEPT !.ex = s.ex + (IF ex THEN 1 ELSE 0), !.fAfter = s.fAfter + (IF ex THEN 1 ELSE 0)] IN
+    ELSE LET s1 == [s EXCEPT !.ex = s.ex + (IF ex THEN 1 ELSE 0), !.fAfter = s.fAfter + (IF ex THEN 1 ELSE 0),
+                             \* a step of a challenge-response authentication (Ultralight C 1Ah / AFh) that the tag executed
+                             \* cannot be repeated: the tag has moved on (new RndB / no open challenge); what follows and the
+                             \* outcome (False) are the protocol's, not judged
+                             !.amb = s.amb \/ (s.cc = "nonce" /\ ex)] IN
          IF P.proto = "T2" /\ s.cc = "ssel2" /\ kind = "timeout"
          THEN [s1 EXCEPT !.ph = "idle", !.amb = s.amb \/ ~ex]  \* passive ack; if the packet was lost the reader cannot know
          ELSE IF CanRetry(s, P, kind) THEN [s1 EXCEPT !.ph = "faulted"]
          ELSE [s1 EXCEPT !.ph = "idle", !.gave = s.gave + 1, !.lastGive = kind, !.justGave = TRUE, !.dirty = TRUE]
 
 \* r = [kind |-> "ok" | "tagerr" | "raw" | "other", errno, val]
+\* P.gone: the operation starts on a tag object whose tag has already left the field (an earlier operation on the
+\* same object ended with the failed sense): nothing can be "survived", the outcome must be the documented failure
+GaveUp(s, P) == s.gave > 0 \/ P.gone
+ErrnoOk(s, P, e) == IF s.gave = 0 \/ s.lastGive = "gone" THEN e \in {0, -1}     \* TIMEOUT_ERROR (tt2.py:580) or the
+                    ELSE e = ErrnoOf(s.lastGive)                                \* RECEIVE_ERROR of tt2.py:489 (NAK + tag gone)
 RetAllowed(s, P, r) ==
     IF s.amb THEN r.kind \in {"ok", "tagerr"}                                 \* lost SECTOR SELECT packet 2: outcome not judged
-    ELSE IF s.gave = 0 THEN r = P.cleanRet                                    \* transient errors are survived
-    ELSE \/ r.kind = "tagerr" /\ r.errno = ErrnoOf(s.lastGive)                \* TagCommandError with the matching code
+    ELSE IF ~GaveUp(s, P) THEN r = P.cleanRet                                 \* transient errors are survived
+    ELSE \/ r.kind = "tagerr" /\ ErrnoOk(s, P, r.errno)                       \* TagCommandError with the matching code
          \/ r.kind = "ok" /\ (r.val \in P.doc \/ "any" \in P.doc)             \* the documented None / False
-DoRet(s, P, r) ==
-    LET s1 == VIf(s, s.ph # "idle", "return-without-retry")
+DoRet(s0, P, r, tp) ==
+    LET s == VIf(s0, tp # s0.tgt, "stale-target")
+        s1 == VIf(s, s.ph # "idle", "return-without-retry")
         s2 == VIf(s1, r.kind \in {"raw", "other"}, "not-a-tag-error")
         s3 == VIf(s2, r.kind \notin {"raw", "other"} /\ ~RetAllowed(s, P, r),
-                  IF s.gave = 0 THEN "result-differs-after-transient-error" ELSE "wrong-result-after-giving-up")
+                  IF ~GaveUp(s, P) THEN "result-differs-after-transient-error" ELSE "wrong-result-after-giving-up")
     IN [s3 EXCEPT !.ph = "done", !.ret = r]
 
 \* ---- the C16 invariants (on the violation set and the counters) ---------------------------------------
@@ -98,5 +119,6 @@ BoundedP(s, P) == s.att <= Budget(P.proto, s.cc, P.nRetry) * (IF P.proto = "T4" 
 NoResendAfterAnswerP(s) == s.viol \cap {"resend-after-answer", "off-sequence", "send-while-sent"} = {}
 RetriesP(s) == s.viol \cap {"no-retry", "return-without-retry", "result-differs-after-transient-error"} = {}
 OnlyTagErrorP(s) == s.viol \cap {"not-a-tag-error", "wrong-result-after-giving-up"} = {}
+TargetFollowsSenseP(s) == "stale-target" \notin s.viol
 AtMostOncePerAnswerP(s) == "executed-twice" \notin s.viol /\ s.ex <= 1 + s.fAfter
 =============================================================================
